@@ -271,7 +271,10 @@ pixman_glyph_cache_insert (pixman_glyph_cache_t  *cache,
     width = image->bits.width;
     height = image->bits.height;
 
-    if (cache->n_glyphs >= HASH_SIZE)
+    /* Always keep at least one slot empty: a lookup of an absent key stops
+     * only at an empty slot, and tombstones do not count as empty.
+     */
+    if (cache->n_glyphs + cache->n_tombstones >= HASH_SIZE - 1)
 	return NULL;
 
     if (!(glyph = malloc (sizeof *glyph)))
